@@ -397,7 +397,11 @@ func c07Conn(r *fw.R, beh string, role Role, p wire.Params, seed uint64, success
 	}
 	defer c.CloseNow()
 	defer peerEnd.Close()
-	c.SetReadLimit(1 << 20)
+	if seed%3 == 0 {
+		c.SetReadLimit(-1) // no limit (what the net.Conn adapter sets)
+	} else {
+		c.SetReadLimit(1 << 20)
+	}
 	peer := newRawPeer(peerEnd, role, p, seed)
 	peer.AutoPong = true
 	// (a peer that has sent part of a frame must not answer a Close frame: its answer would be that frame's payload)
